@@ -442,7 +442,41 @@ func execMvcc(intents []string, st *Stats) (final, outs, oracle []string) {
 				s.db = nil
 				continue
 			}
-			emit(line, fmt.Sprintf("ok next=%d", badger.VerifNextTxnTs(s.db)))
+			next := badger.VerifNextTxnTs(s.db)
+			emit(line, fmt.Sprintf("ok next=%d", next))
+			if !s.managed {
+				// C11: the next timestamp lies above every stored version. Versions of the history
+				// at or above it are therefore no longer stored (dropped by a compaction that the
+				// oracle judged when it ran); their timestamps will be handed out again (finding
+				// F29), so the history forgets them -- otherwise a later commit at a reused
+				// timestamp would be judged against a version that legitimately no longer exists.
+				for _, lvl := range badger.VerifLevels(s.db) {
+					for _, t := range lvl {
+						for _, e := range t.Entries {
+							if e.Version >= next {
+								fail("C11-next-not-above-stored", fmt.Sprintf("after Close+Open the next timestamp is %d but table %d stores key %s at version %d", next, t.ID, hx(e.Key), e.Version))
+							}
+						}
+					}
+				}
+				// The newest version of a key is only ever dropped as a dead version at the bottom,
+				// together with every older version of the key: such a key starts afresh.
+				for k, vs := range s.spec.hist {
+					gone := false
+					for _, v := range vs {
+						if v.ver >= next {
+							gone = true
+						}
+					}
+					if !gone {
+						continue
+					}
+					if nv, ok := s.spec.newest([]byte(k), math.MaxUint64, 0); ok && !nv.dead(s.now) && s.spec.judged([]byte(k), nv.ver) {
+						fail("C11-live-version-above-next", fmt.Sprintf("after Close+Open the next timestamp is %d but key %s has the live version %d", next, hx([]byte(k)), nv.ver))
+					}
+					delete(s.spec.hist, k)
+				}
+			}
 			s.lastCts = 0
 			s.reopenSeq = s.spec.seq
 			emit("dump", s.dump())
